@@ -16,7 +16,7 @@ impl<'a> AsRef<[u8]> for QName<'a> {
  pub struct LocalName<'a>(pub &'a [u8]);
 //@end
 impl<'a> QName<'a> {
-//@extract name::QName::index | src/name.rs :: impl<'a> QName<'a> :: fn index | serves=C04,C05
+//@extract name::QName::index | src/name.rs :: impl<'a> QName<'a> :: fn index | serves=C01,C04,C05
     fn index(&self) -> (r: Option<usize>)
         ensures match r {
             Some(i) => first_colon(self.0@, i as int),
@@ -41,7 +41,7 @@ impl<'a> vstd::std_specs::convert::FromSpecImpl<QName<'a>> for LocalName<'a> {
     open spec fn from_spec(e: QName<'a>) -> Self { arbitrary() }
 }
 impl<'a> From<QName<'a>> for LocalName<'a> {
-//@extract name::LocalName::from | src/name.rs :: impl<'a> From<QName<'a>> for LocalName<'a> :: fn from | serves=C04,C05
+//@extract name::LocalName::from | src/name.rs :: impl<'a> From<QName<'a>> for LocalName<'a> :: fn from | serves=C01,C04,C05
     fn from(name: QName<'a>) -> (r: Self)
         ensures r.0@ == spec_local_name(name.0@)
     {
@@ -51,7 +51,7 @@ impl<'a> From<QName<'a>> for LocalName<'a> {
 //@end
 }
 impl<'a> BytesStart<'a> {
-//@extract events::BytesStart::local_name | src/events/mod.rs :: impl<'a> BytesStart<'a> :: fn local_name | serves=C04
+//@extract events::BytesStart::local_name | src/events/mod.rs :: impl<'a> BytesStart<'a> :: fn local_name | serves=C01,C04
  fn local_name(&self) -> (r: LocalName)
         requires self.name_len <= self.buf@.len()
         ensures r.0@ == spec_local_name(self.buf@.subrange(0, self.name_len as int))
@@ -370,7 +370,7 @@ impl ReaderState {
     }
 //@end
 
-//@extract state::ReaderState::close_expanded_empty | src/reader/state.rs :: impl ReaderState :: fn close_expanded_empty | serves=C03,C04,C16,C17
+//@extract state::ReaderState::close_expanded_empty | src/reader/state.rs :: impl ReaderState :: fn close_expanded_empty | serves=C01,C03,C04,C16,C17
  pub(crate) fn close_expanded_empty(&mut self) -> (r: BytesEnd<'static>)
         requires old(self).wf(), old(self).stack().len() > 0
         ensures
